@@ -179,7 +179,7 @@ func fFamilyModel() (*openfgav1.AuthorizationModel, string) {
 		text = append(text, fRelNames[i]+": "+t)
 	}
 	// tupleset parents: 1 [doc]; 2 [doc, org]; 3 [doc, doc with k, org]; 4 [org, org with k, doc];
-	// 5 [doc, doc with k, bare] where type bare defines no relation
+	// 5 [doc, doc with k, bare] where type bare defines no relation; 6 [bare, doc]
 	pr := []*openfgav1.RelationReference{fRef("doc")}
 	tds := []*openfgav1.TypeDefinition{{Type: "user"}, {Type: "employee"}, td}
 	if parents >= 2 {
@@ -193,8 +193,12 @@ func fFamilyModel() (*openfgav1.AuthorizationModel, string) {
 		case 5:
 			pr = append(pr, fCond(fRef("doc")), fRef("bare"))
 			tds = append(tds, &openfgav1.TypeDefinition{Type: "bare"})
+		case 6:
+			// a parent type without any relation listed in front of the own type
+			pr = []*openfgav1.RelationReference{fRef("bare"), fRef("doc")}
+			tds = append(tds, &openfgav1.TypeDefinition{Type: "bare"})
 		}
-		if parents != 5 {
+		if parents != 5 && parents != 6 {
 			org := &openfgav1.TypeDefinition{Type: "org", Relations: map[string]*openfgav1.Userset{}, Metadata: &openfgav1.Metadata{Relations: map[string]*openfgav1.RelationMetadata{}}}
 			for i := 0; i < n; i++ {
 				org.Relations[fRelNames[i]] = fThis()
